@@ -102,6 +102,9 @@ func genFleetScript(g *Gen, n int, native bool, steps int, withFaults, withResta
 				f.lines = append(f.lines, fmt.Sprintf("loop.go %s ? %d %d", id, fails, f.now()), "prop.loop.check "+id)
 			}
 			f.started[id] = true
+		case x < 8 && f.started[id] && f.r.Intn(4) == 0:
+			// the forced periodic snapshot becomes due
+			f.lines = append(f.lines, "loop.overdue "+id)
 		case x < 8:
 			f.lines = append(f.lines, fmt.Sprintf("loop.app %s %s", id, f.appOpsFor(id, !created[id])), "prop.loop.check "+id)
 			created[id] = true
